@@ -1,4 +1,4 @@
-* exhaustive, repaired fill (2 keys, values {absent,1}, 2 batches, 2 clients x 3 ops): all invariants hold
+\* exhaustive, repaired fill (2 keys, values {absent,1}, 2 batches, 2 clients x 3 ops): all invariants hold
 SPECIFICATION Spec
 CONSTANTS
   Keys = {k1, k2}
